@@ -163,6 +163,15 @@ impl<'a, 'tcx> Cx<'a, 'tcx> {
                 }
             }
         }
+        // pointers to statics (`static X: usize = ..` read as `*const`): record the static's def path
+        if let Ok(v) = c.const_.eval(self.tcx, self.env, c.span) {
+            if let mir::ConstValue::Scalar(mir::interpret::Scalar::Ptr(ptr, _)) = v {
+                let aid = ptr.provenance.alloc_id();
+                if let Some(mir::interpret::GlobalAlloc::Static(sid)) = self.tcx.try_get_global_alloc(aid) {
+                    o.push(("static".into(), J::Str(def_path(self.tcx, sid))));
+                }
+            }
+        }
         // unevaluated / named consts: record the def path when there is one
         match c.const_ {
             mir::Const::Unevaluated(uv, _) => {
